@@ -38,6 +38,7 @@ def shards(tier, seed):
 		out.append(dict(name=f'siglist-history-{i}', kind='slhist', sub=300 + i, nhist=15 if tier == 'quick' else 60, env={'OMP_NUM_THREADS': '4'}))
 	out.append(dict(name='large-collections', kind='large', sub=900, rounds=4 if tier == 'quick' else 30, env={'OMP_NUM_THREADS': '16'}))
 	out.append(dict(name='same-file-operands', kind='samefile', sub=800, rounds=6 if tier == 'quick' else 60))
+	out.append(dict(name='several-containers-open', kind='twoopen', sub=850, rounds=6 if tier == 'quick' else 60))
 	out.append(dict(name='two-threads', kind='twothreads', sub=700, rounds=6 if tier == 'quick' else 60, env={'OMP_NUM_THREADS': '4'}))
 	out.append(dict(name='asan-cfg', kind='cfg', sub=500, ncoll=3 if tier == 'quick' else 10, nconf=40 if tier == 'quick' else 120, reps=2, sanitizer='asan',
 	                env={'OMP_NUM_THREADS': '8'}))
@@ -297,6 +298,8 @@ def run_shard(sh, ctx):
 		return run_tsan(sh, ctx, gm)
 	if sh['kind'] == 'slhist':
 		return run_siglist_history(sh, ctx, gm)
+	if sh['kind'] == 'twoopen':
+		return run_two_open(sh, ctx, gm)
 	if sh['kind'] == 'twothreads':
 		return run_two_threads(sh, ctx, gm)
 	if sh['kind'] == 'samefile':
@@ -526,6 +529,57 @@ def run_same_file(sh, ctx, gm):
 			closer()
 
 
+def run_two_open(sh, ctx, gm):
+	"""Two or three reference containers (at least two of them signature files) open AT THE SAME TIME, with different numbers and sizes
+	of signatures, used in turn for bulk calls: what one of them was asked before must not show in what the other one answers."""
+	rng = random.Random(f'C05-open-{ctx.seed}')
+	for rd in range(sh['rounds']):
+		kinds = ['hdf5', 'hdf5', rng.choice(['hdf5', 'sigarray', 'annotated'])]
+		conts = []
+		try:
+			sizes = rng.sample([6, 9, 12, 17, 24, 31], 3)
+			if rd % 2:
+				sizes.sort(reverse=True)       # the file used first is the larger one
+			for ci, kind in enumerate(kinds):
+				coll = gen_collection(rng, sizes[ci])
+				dt = rng.choice(['u2', 'u4', 'u8'])
+				cont, arrs, closer = build_container(kind, coll, dt, ctx, f'open{rd}_{ci}')
+				conts.append((kind, cont, arrs, closer, dt))
+			qcoll = gen_collection(rng, 3)
+			qs = [np.array(s, dtype='u4') for s in qcoll]
+			for step in range(9):
+				ci = step % 3 if step < 6 else rng.randrange(3)
+				kind, cont, arrs, closer, dt = conts[ci]
+				n = len(arrs)
+				op = ['matrix', 'matrix-chunked', 'matrix-indices', 'pairwise', 'array', 'matrix-slice'][(step + rd) % 6]
+				w = dict(containers=[(k, len(a)) for k, _, a, _, _ in conts], used_now=ci, operation=op, step=step)
+				ctx.case(('twoopen', rd, step, op), nontrivial=True, sample=w if rd == 0 and step < 2 else None)
+				ctx.count('bulk_calls_with_several_containers_open'); ctx.count(f'several_open:{op}')
+				try:
+					if op == 'matrix':
+						got, exp = gm.jaccarddist_matrix(qs, cont, chunksize=None), oracle_matrix(gm, qs, arrs)
+					elif op == 'matrix-chunked':
+						got, exp = gm.jaccarddist_matrix(qs, cont, chunksize=5), oracle_matrix(gm, qs, arrs)
+					elif op == 'matrix-indices':
+						idx = [rng.randrange(n) for _ in range(rng.randint(1, n))]
+						got, exp = gm.jaccarddist_matrix(qs, cont, ref_indices=idx, chunksize=rng.choice([None, 4])), oracle_matrix(gm, qs, [arrs[i] for i in idx])
+					elif op == 'pairwise':
+						got, exp = gm.jaccarddist_pairwise(cont), oracle_matrix(gm, arrs, arrs)
+					elif op == 'array':
+						got, exp = gm.jaccarddist_array(qs[0], cont), oracle_matrix(gm, qs[:1], arrs)[0]
+					else:
+						a = rng.randrange(n); b = rng.randint(a + 1, n)
+						got, exp = gm.jaccarddist_matrix(qs, cont[a:b], chunksize=None), oracle_matrix(gm, qs, arrs[a:b])
+				except Exception as e:
+					ctx.violation('bulk-raises', f'{op} on container {ci} ({kind}, {n} signatures) raised {type(e).__name__}: {e}', w)
+					continue
+				ctx.evals += 1
+				cmp_bits(ctx, got, exp, 'cell-bits', f'{op} on container {ci} ({kind}) while the other containers are open', w)
+		finally:
+			for _, _, _, closer, _ in conts:
+				closer()
+
+
 def run_two_threads(sh, ctx, gm):
 	"""Two Python threads call the bulk functions at the same time on shared references (each with its own output): every cell of
 	both results must still be the pairwise value (the native kernel releases the GIL, so the calls really overlap)."""
@@ -621,7 +675,7 @@ def finalize(merged, tier, seed, inconclusive):
 	for k in CONTAINERS:
 		if c.get(f'container:{k}', 0) == 0:
 			inconclusive.append(f'container never exercised: {k}')
-	for n in ['calls:array', 'calls:matrix', 'calls:pairwise', 'canary_checks', 'repetitions', 'index_kind:repeats', 'chunking:1', 'chunking:>n', 'pairwise:flat', 'pairwise:square', 'wide_queries_beyond_narrow_reference_range', 'siglist_history_steps', 'container:pylist-mixed', 'two_thread_rounds', 'large_collection_calls:threads=16', 'tsan_large_collections']:
+	for n in ['calls:array', 'calls:matrix', 'calls:pairwise', 'canary_checks', 'repetitions', 'index_kind:repeats', 'chunking:1', 'chunking:>n', 'pairwise:flat', 'pairwise:square', 'wide_queries_beyond_narrow_reference_range', 'siglist_history_steps', 'container:pylist-mixed', 'two_thread_rounds', 'large_collection_calls:threads=16', 'tsan_large_collections', 'bulk_calls_with_several_containers_open']:
 		if c.get(n, 0) == 0:
 			inconclusive.append(f'class never observed: {n}')
 	tc = merged['sets'].get('thread_counts', set())
